@@ -58,6 +58,12 @@ Lemma link_scan_calls : C10_Gen.scan_calls =
    "append"; "e.Next"; "l.Remove"; "w.timers.Del"; "w.runTasks"].
 Proof. reflexivity. Qed.
 
+(* every batch gets its own goroutine running the callbacks of ITS slice in order; the run loop calls
+   drainAll itself (no `go:`), so Drain's hand-over is complete before the next tick is handled *)
+Lemma link_runTasks_calls : C10_Gen.runTasks_calls =
+  ["len"; "return"; "go:func"; "{"; "w.execute"; "threading.RunSafe"; "}"].
+Proof. reflexivity. Qed.
+
 Lemma link_drain_calls : C10_Gen.drain_calls =
   ["threading.NewTaskRunner"; "slot.Front"; "e.Next"; "slot.Remove"; "fn"; "runner.Schedule"].
 Proof. reflexivity. Qed.
